@@ -115,7 +115,10 @@ def havoc_value(eng, v, seen=None):
         else:
             hint = getattr(v, "hint", None)
             if hint is not None:
-                v.promote(hint)
+                if callable(hint):
+                    hint(eng, v)  # custom promotion supplied by the contract module (e.g. lists of object handles)
+                else:
+                    v.promote(hint)
                 eng.assume(v.n >= 0)
             elif all(kind_of(x) is not None for x in v.items) and v.items:
                 v.items = [fresh(kind_of(x), "h") for x in v.items]
